@@ -161,3 +161,29 @@ Proof.
   exists s2'. split; [exact E|]. split; [exact HR'|exact (R_sink _ _ HR')].
 Qed.
 Print Assumptions C09_call_chunk_independent.
+
+(* ---------- writer side, the CALLER's chunking.  Writing a ++ b to a stored entry with one write_all call or with two
+   (any split point, on any failure-free short-writing sink, sizes within the entry's limit) leaves writer states that
+   agree on everything except the unconsumed plan of the sink: same sink bytes, same byte count, same bytes hashed.
+   Hence (by the simulation) every continuation -- more writes, further entries, finish -- returns the same results and
+   leaves the same archive bytes: the archive does not depend on how the caller splits its writes. *)
+From ZipV Require Import Proofs.CallerSplit.
+Theorem C09_caller_split_independent : forall enc crc s d a b,
+  ws_to_file s = true -> ws_to_extra s = false -> ws_inner s = WStorer d ->
+  nofail (d_plan d) -> d_pos d <= len (d_buf d) ->
+  (ws_written s + len (a ++ b) <= ZIP64_BYTES_THR \/ large_last s = true) ->
+  exists s1 s2 s12,
+    zw_write_all s (a ++ b) = (s12, Ok tt) /\
+    zw_write_all s a = (s1, Ok tt) /\ zw_write_all s1 b = (s2, Ok tt) /\
+    sink_bytes s12 = sink_bytes s2 /\
+    forall calls s12' rs, run_calls enc crc s12 calls = (s12', rs) -> Forall call_not_large rs ->
+      exists s2', run_calls enc crc s2 calls = (s2', rs) /\ sink_bytes s12' = sink_bytes s2'.
+Proof.
+  intros enc crc s d a b Hf He Hi Hp Hpos Hlg.
+  destruct (caller_split enc crc s d a b Hf He Hi Hp Hpos Hlg) as (s1 & s2 & s12 & E12 & E1 & E2 & HR).
+  exists s1, s2, s12. split; [exact E12|]. split; [exact E1|]. split; [exact E2|]. split; [exact (R_sink _ _ HR)|].
+  intros calls s12' rs Hrun Hnl.
+  destruct (run_calls_sim enc crc calls _ _ _ _ HR Hrun Hnl) as (s2' & E & HR').
+  exists s2'. split; [exact E|exact (R_sink _ _ HR')].
+Qed.
+Print Assumptions C09_caller_split_independent.
